@@ -185,6 +185,7 @@ class MethodInfo:
         self.memo_dels = {}     # field -> line
         self.memo_guards = set()
         self.component_calls = {}   # (path of the receiver, method name) -> [lines]   for calls  self.<component>.<method>(...)
+        self.component_reads = {}   # (path of the receiver, attribute) -> [lines]     for loads  self.<component>.<attribute>  (properties of the component run code)
         self.decorators = []
         self.returns = []
 
@@ -419,6 +420,8 @@ class ClassFrames:
                             note_write(self._path(kw.value, aliases), n.lineno, "out= argument")
             elif isinstance(n, ast.Attribute) and isinstance(n.ctx, ast.Load):
                 b = self._path(n.value, aliases)
+                if b and b.startswith("self.") and b.count(".") == 1 and "[" not in b:
+                    info.component_reads.setdefault((b, n.attr), []).append(n.lineno)
                 if b == "self" and n.attr in self.props and n.attr not in self.alias_props:
                     info.self_calls.setdefault(n.attr, []).append(n.lineno)
         return info
